@@ -356,6 +356,15 @@ def run_case(driver, case):
                                 (desc["entry"], desc["kind"].split("_")[0], strip(desc).get("kind"), "/".join(nonfin)),
                                 {"bad": strip(desc), "log": log, "stored": {f: np.asarray(dd_[f], dtype=np.float64).tolist() for f in nonfin}}, True,
                                 {"kind": "overflow-accepted", "entry": desc["entry"], "malformation": desc["kind"]})
+                if desc["kind"].startswith("extra_"):
+                    # a call with a missing / unknown / mis-shaped extra field may only pass when nothing of it reaches the store (every
+                    # candidate rejected by the thresholds: the documented "new_data is ignored when no index is left"); if the archive
+                    # changed, the malformed data was silently dropped or stored
+                    dd_acc = diff_snap(before, snapshot(main, kind))
+                    if dd_acc:
+                        return ("%s with a malformed extra field (%s) did not raise and changed the archive: %s" % (desc["entry"], desc["kind"], dd_acc),
+                                {"bad": strip(desc), "field": dd_acc, "log": log}, True,
+                                {"kind": "malformed-accepted", "entry": desc["entry"], "malformation": desc["kind"], "archive": kind if kind in ("sliding", "prox") else "fixed"})
                 log.append(["accepted", desc["entry"], desc["kind"]])
                 case.setdefault("accepted", []).append([desc["entry"], desc["kind"]])
                 continue
